@@ -204,6 +204,7 @@ structure In where
   procs : List Persist.Proc
   features : Option Nat
   ops : List String
+  bidi : Bool
 deriving FromJson, ToJson
 structure EvJ where
   t : String
@@ -216,24 +217,25 @@ structure EvJ where
   files : List Persist.RF
   error : Option Bytes
   features : Option Nat
+  bidi : Bool
 deriving FromJson, ToJson, BEq
 def EvJ.ofEv : Ev → EvJ
-  | .read => ⟨"read", 0, [], [], [], [], [], [], none, none⟩
-  | .init i n p o => ⟨"init", i, n, p, o, [], [], [], none, none⟩
-  | .exec i t p => ⟨"exec", i, [], [], [], t, p, [], none, none⟩
-  | .write f e ft => ⟨"write", 0, [], [], [], [], [], f, e, ft⟩
-  | .astRet => ⟨"ast", 0, [], [], [], [], [], [], none, none⟩
-  | .died => ⟨"died", 0, [], [], [], [], [], [], none, none⟩
+  | .read => ⟨"read", 0, [], [], [], [], [], [], none, none, false⟩
+  | .init i n p o => ⟨"init", i, n, p, o, [], [], [], none, none, false⟩
+  | .exec i t p b => ⟨"exec", i, [], [], [], t, p, [], none, none, b⟩
+  | .write f e ft => ⟨"write", 0, [], [], [], [], [], f, e, ft, false⟩
+  | .astRet => ⟨"ast", 0, [], [], [], [], [], [], none, none, false⟩
+  | .died => ⟨"died", 0, [], [], [], [], [], [], none, none, false⟩
 def EvJ.toEv (e : EvJ) : Ev :=
   match e.t with
   | "read" => .read
   | "init" => .init e.i e.name e.params e.out
-  | "exec" => .exec e.i e.targets e.pkgs
+  | "exec" => .exec e.i e.targets e.pkgs e.bidi
   | "write" => .write e.files e.error e.features
   | "ast" => .astRet
   | _ => .died
 def In.cfg (i : In) : Cfg :=
-  ⟨i.files, i.targets, i.param, i.mutators, i.mods.map (fun m => ⟨m.name, m.arts.map Persist.ArtJ.toArt⟩), i.procs, i.features⟩
+  ⟨i.files, i.targets, i.param, i.mutators, i.mods.map (fun m => ⟨m.name, m.arts.map Persist.ArtJ.toArt⟩), i.procs, i.features, i.bidi⟩
 def In.opsL (i : In) : List Op := i.ops.map fun s => if s == "ast" then .ast else .render
 def engine : Engine :=
   mkEngine (I := In) (O := List EvJ)
